@@ -18,7 +18,11 @@ func conversionCollectionToList(ety cty.Type, conv conversion) conversion {
 			// for a set containing unknown values) then our result must be
 			// an unknown list, because we can't predict how many elements
 			// the resulting list should have.
-			return cty.UnknownVal(cty.List(val.Type().ElementType())), nil
+			retEty := ety
+			if retEty == cty.DynamicPseudoType {
+				retEty = val.Type().ElementType()
+			}
+			return cty.UnknownVal(cty.List(retEty.WithoutOptionalAttributesDeep())), nil
 		}
 
 		elems := make([]cty.Value, 0, val.LengthInt())
